@@ -56,6 +56,9 @@ def _candidates():
         if t not in seen:
             seen.add(t)
             yield ("literal", t)
+    # the NEXUS one-tree-at-a-time iterator: degenerate sources and every truncation of the trees-only document
+    for t in ["", " ", "[c]", "#NEXUS", "#NEXUS\n", "x", "(A,B);"] + [CORPUS[3][:i] for i in range(len(CORPUS[3]) + 1)]:
+        yield ("nexus-yield|literal", t)
     # NEWICK sources, through the reader, the reader without a required final semicolon, and the one-tree-at-a-time iterator
     nseen = set()
     for doc in NEWICK_CORPUS:
@@ -84,6 +87,9 @@ def _read(text, route):
         dendropy.TreeList.get(data=text, schema="newick")
     elif route == "newick-nosemi":
         dendropy.TreeList.get(data=text, schema="newick", terminating_semicolon_required=False)
+    elif route == "nexus-yield":
+        for t in dendropy.Tree.yield_from_files(files=[io.StringIO(text)], schema="nexus"):
+            pass
     elif route == "newick-yield":
         for t in dendropy.Tree.yield_from_files(files=[io.StringIO(text)], schema="newick"):
             pass
@@ -174,7 +180,8 @@ def replay_reader(ctx, suite, c, ob, witness, bv_widths):
             continue
         # the innermost reader frame must be this function (or the tokenizer below it)
         inner = [f for f in frames if f[0].startswith("_parse") or f[0].startswith("_read") or f[0].startswith("_process") or f[0].startswith("_consume")
-                 or f[0] in ("skip_to_semicolon", "tree_iter", "_yield_items_from_stream")]
+                 or f[0] in ("skip_to_semicolon", "tree_iter", "_yield_items_from_stream", "_yield_from_trees_block",
+                             "__next__", "_handle_comment", "_skip_to_significant_char", "next_token", "require_next_token")]
         if inner and inner[-1][0] != fname:
             continue
         if not want_hang and ob.lineno and inner and inner[-1][1] != ob.lineno:
